@@ -117,6 +117,20 @@ thread_local! {
     static HSM_FAIL_AT: Cell<Option<usize>> = const { Cell::new(None) };
     static HSM_FIRED: Cell<usize> = const { Cell::new(0) };
     static HSM_HANDLE: Cell<bool> = const { Cell::new(false) };
+    static HSM_ROTATED: RefCell<Option<Vec<u8>>> = const { RefCell::new(None) };
+}
+
+/// Fault: the key material behind the external-key interface changes (key
+/// rotation inside the key service): from now on every key operation of every
+/// `SimHsm` uses the private key whose raw scalar bytes are given.
+pub fn hsm_rotate_to(raw_sk: Option<Vec<u8>>) {
+    HSM_ROTATED.with(|r| *r.borrow_mut() = raw_sk);
+}
+fn live_key<KG: KeGroup>(own: &PrivateKey<KG>) -> PrivateKey<KG> {
+    HSM_ROTATED.with(|r| match &*r.borrow() {
+        Some(b) => <PrivateKey<KG> as SecretKey<KG>>::deserialize(b).unwrap_or_else(|_| own.clone()),
+        None => own.clone(),
+    })
 }
 
 /// Handle mode: the serialized form of the external key is an opaque handle
@@ -191,14 +205,16 @@ impl<KG: KeGroup> SecretKey<KG> for SimHsm<KG> {
         pk: PublicKey<KG>,
     ) -> Result<GenericArray<u8, KG::PkLen>, InternalError<Self::Error>> {
         hsm_note(HsmCall::DiffieHellman).map_err(InternalError::Custom)?;
-        self.0
+        live_key::<KG>(&self.0)
             .diffie_hellman(pk)
             .map_err(|e| InternalError::into_custom(e))
     }
 
     fn public_key(&self) -> Result<PublicKey<KG>, InternalError<Self::Error>> {
         hsm_note(HsmCall::PublicKey).map_err(InternalError::Custom)?;
-        self.0.public_key().map_err(|e| InternalError::into_custom(e))
+        live_key::<KG>(&self.0)
+            .public_key()
+            .map_err(|e| InternalError::into_custom(e))
     }
 
     fn serialize(&self) -> GenericArray<u8, Self::Len> {
